@@ -1,2 +1,4 @@
 import Glas.Props.C20
-#print axioms Glas.Props.C20.placeholder
+#print axioms Glas.Props.C20.ranges_in_bounds
+#print axioms Glas.Props.C20.ranges_on_char_boundaries
+#print axioms Glas.Props.C20.C20_tree_ranges
